@@ -320,3 +320,28 @@ def order_sensitive_sum(rng, var_pool):
     if rng.random() < 0.3:
         e = rng.choice([('Neg', e), ('Exp', e, 2), ('Mul', [e, ('V', rng.choice(var_pool))])])
     return e
+
+
+def repairable_singular(rng, var_pool, count):
+    """variable-free sub-trees that raise DomainError as written but are REPAIRED by a domain-widening rewrite of
+    something inside them (1/(1/0) -> 0, e^(ln(-1)) -> -1, (sqrt(-4))^2 -> -4, (-3)^2 as a Power -> 9, 0 * (1/0) -> 0),
+    placed under every kind of parent and next to a variable: memo flags carried from the form that failed to the
+    form that no longer does show here"""
+    E_ = math.e
+    sing = [('Recip', ('Recip', ('C', 0))), ('Exp', ('Log', ('C', -1), E_), E_), ('NthPow', ('NthRoot', ('C', -4), 2), 2),
+            ('Power', ('C', -3), ('C', 2)), ('Mul', [('C', 0), ('Recip', ('C', 0))]), ('Neg', ('Neg', ('Log', ('C', 0), E_))),
+            ('Power', ('C', -8), ('C', 2)), ('Divide', ('C', 0), ('Recip', ('C', 0))),
+            ('NthPow', ('NthPow', ('NthRoot', ('C', -4), 2), 2), 3)]
+    heads = [lambda u: ('Log', u, E_), lambda u: ('Log', u, 2), lambda u: ('NthRoot', u, 3), lambda u: ('NthRoot', u, 2),
+             lambda u: ('Exp', u, 2), lambda u: ('NthPow', u, 3), lambda u: ('Sin', u), lambda u: ('Cos', u),
+             lambda u: ('Neg', u), lambda u: ('Recip', u), lambda u: u,
+             lambda u: ('Minus', u, ('C', 1)), lambda u: ('Add', [u, ('C', 2)]), lambda u: ('Mul', [u, ('C', 2)])]
+    out = []
+    for _ in range(count):
+        u = rng.choice(heads)(rng.choice(sing))
+        if rng.random() < 0.4:
+            u = rng.choice(heads[:2] + heads[6:])(u)      # no tower of exponentials: 2 ** (2 ** 64) is an exact-integer bomb
+        x = ('V', rng.choice(var_pool))
+        out.append(rng.choice([('Mul', [x, u]), ('Add', [x, u]), ('Mul', [u, x, x]), ('Minus', x, u), ('Power', x, u),
+                               ('Add', [('Sin', x), u, ('C', 1)]), ('Divide', u, x)]))
+    return out
